@@ -169,7 +169,14 @@ func (h *harness) record(c *engine.Case, v verdict, source string) {
 	h.run.Oblige("executor correspondence (data, ordered errors, idle rounds, promises created) vs Lean ExecAsync", "correspondence", 1, v.Class != "correspondence", v.What)
 	h.run.Oblige("oracle: every schedule = all-sync run on data and required errors; no duplicate error; no blank/missing key; rounds ≤ promises; no crash", "oracle", 1, v.Class != "property" && v.Class != "crash", v.What)
 	if v.Model != nil && v.Model.HasSpec {
-		h.run.Oblige("Lean reference semantics (Spec.data, Spec.required ⊆ errors ⊆ Spec.errsF) vs the implementation's output", "correspondence", 1, !(v.Class == "correspondence" && v.Cat == "spec"), v.What)
+		h.run.Oblige("Lean reference semantics (Spec.data, Spec.required ⊆ errors ⊆ Spec.errsF, every Spec.nulls position is a null of the data with an explaining error) vs the implementation's output", "correspondence", 1, !(v.Class == "correspondence" && v.Cat == "spec"), v.What)
+		h.run.Count(fmt.Sprintf("spec-nulls=%d", min(len(v.Model.SpecNulls), 4)))
+		for _, n := range v.Model.SpecNulls {
+			if len(n.Cands) > 1 {
+				h.run.Count("spec-null with several candidate errors")
+				break
+			}
+		}
 	}
 	if v.Class == "" {
 		return
@@ -284,7 +291,7 @@ type fixedReq struct {
 	obj      []string
 	listLen  int
 	listAlt  bool
-	maxInv   int // skip worlds with more invocations than this (keeps the schedule space bounded)
+	maxInv   int    // skip worlds with more invocations than this (keeps the schedule space bounded)
 	syntax   uint64 // presentation of the selection sets in the document (engine/syntax.go); 0 = plain
 }
 
